@@ -23,6 +23,7 @@ var registry = map[string]func(*rules.Ctx){
 	"C09": rules.C09,
 	"C12": rules.C12,
 	"C15": rules.C15,
+	"C19": rules.C19,
 }
 
 func main() {
